@@ -181,10 +181,15 @@ def _getattr_ref(ex, obj, attr, st, node):
     td = mk(ex)
     if attr == "rows":
         known = ex.known_class(obj, st) or ci
+        if known.name not in ("RowMapping", "RowSequence"):
+            holders = [c for c in ex.candidates(obj, st) if c.name in ("RowMapping", "RowSequence")]
+            others = [c for c in ex.candidates(obj, st) if c.name not in ("RowMapping", "RowSequence")]
+            if len(holders) == 1 and not others:
+                known = holders[0]
+            else:
+                raise OutsideSubset(f".rows of a {known.name}", node)
         if known.name == "RowMapping":
             td = TRowDict
-        elif known.name != "RowSequence":
-            raise OutsideSubset(f".rows of a {known.name}", node)
     v = SV(td, sym(obj.z))
     if isinstance(td, TRefT) and td.cls is not None:
         st.assume(*ex.types.typing_fact(v.z, td))
